@@ -23,11 +23,14 @@
 (*   ShowsItsCode   the property: a listed line that produced code shows that code (address + bytes); the    *)
 (*                  extra text replaces the code column only on the line of the statement that wrote it      *)
 (* Named deviations of the code from the manual (the model follows the code, TLC exhibits them):             *)
-(*   LegacyIsOverride   the statement MACEXP ("use it instead of MACEXP_DFT") sets the OVERRIDE list          *)
-(*                      (asmallg.c CodeMACEXP: `else if (Index)` with Index = 0x10)                          *)
+(*   LegacyIsOverride   REPAIRED in /repo (fix: the legacy statement MACEXP set the override list ...): the  *)
+(*                      pinned tree took MACEXP for MACEXP_OVR (asmallg.c CodeMACEXP: `else if (Index)` with  *)
+(*                      Index = 0x10); the model now follows the manual: MACEXP = MACEXP_DFT                 *)
 (*   SkippedNeedsRest   a line skipped by conditional assembly belongs to the manual's class "conditional     *)
 (*                      assembly", MakeList() additionally demands the Rest bit for it; a skipped macro call  *)
 (*                      is filed under "macro"                                                              *)
+(*   CallCountsAsMacro  a macro CALL inside an expansion is filed under "macro definitions" (WasMACRO), the     *)
+(*                      manual's first class holds definitions and REPT/IRP/IRPC/WHILE blocks only            *)
 (*   StaleActiveIF      ActiveIF is only written by CodeIFs(); lines that never reach it (REPT header, lines   *)
 (*                      being recorded) are masked with the value the last IF-family statement left behind  *)
 (* Constant Stale = TRUE switches the per-line reset of ListLine off (it is then cleared only by a line that   *)
@@ -147,10 +150,10 @@ Eff(ln) ==
   CASE ln.k = "data"    -> IF ifasm THEN [Base("rest") EXCEPT !.len = ln.n] ELSE Base("rest")
     [] ln.k = "set"     -> IF ifasm THEN [Base("rest") EXCEPT !.text = "=VAL"] ELSE Base("rest")
     [] ln.k = "listing" -> IF ifasm THEN [Base("rest") EXCEPT !.liston = ln.a] ELSE Base("rest")
-    [] ln.k = "dft"     -> IF ifasm THEN [Base("rest") EXCEPT !.dflt = ln.s, !.text = DftText(ApplyMods(Parts, ln.s))]
+    [] ln.k \in {"dft", "legacy"} ->                                           \* MACEXP is the old name of MACEXP_DFT
+                           IF ifasm THEN [Base("rest") EXCEPT !.dflt = ln.s, !.text = DftText(ApplyMods(Parts, ln.s))]
                            ELSE Base("rest")
-    [] ln.k \in {"ovr", "legacy"} ->                                           \* LegacyIsOverride
-                           IF ifasm THEN [Base("rest") EXCEPT !.ovr = ln.s] ELSE Base("rest")
+    [] ln.k = "ovr"     -> IF ifasm THEN [Base("rest") EXCEPT !.ovr = ln.s] ELSE Base("rest")
     [] ln.k = "if"      -> LET found == IF ifasm THEN ln.a # 0 ELSE TRUE IN                   \* CodeIF + PushIF
                            [Base("if") EXCEPT !.activeif = ifasm,
                                               !.text = IF ifasm THEN BoolText(ln.a # 0) ELSE "",
@@ -250,12 +253,15 @@ Process(ln, e, rec, depth, newinp, oline) ==
                  len |-> e.len, pc |-> pc, tag |-> IF ln.k = "data" THEN ln.a ELSE 0, text |-> e.text # "",
                  manual |-> ManualListed(ln, rec, e.liston, e.ifasm, encl, meff, depth),
                  \* the manual is definite: first level of expansion or none, no skipped line inside an expansion
-                 \* (SkippedNeedsRest), ActiveIF not stale
-                 judged |-> depth <= 1 /\ (depth = 0 \/ e.ifasm \/ e.cls = "if") /\ ~(rec \/ ln.k = "rept")]
+                 \* (SkippedNeedsRest), ActiveIF not stale, no nested call (CallCountsAsMacro)
+                 judged |-> /\ depth <= 1 /\ (depth = 0 \/ e.ifasm \/ e.cls = "if") /\ ~(rec \/ ln.k = "rept")
+                            /\ ~(ln.k = "call" /\ depth >= 1)]                                   \* CallCountsAsMacro
 
 \* statements a program may hold at top level
-AllModLists == {<<>>, <<"OFF">>, <<"NOIF">>, <<"NOMACRO">>, <<"NOREST">>, <<"OFF", "REST">>, <<"OFF", "IF">>, <<"NOIF", "NOMACRO">>, <<"ON">>}
-AllCtlLists == {<<>>, <<"OFF">>, <<"NOIF">>, <<"IF">>, <<"REST">>, <<"ON">>}
+\* every modifier (ON OFF IF NOIF MACRO NOMACRO REST NOREST) occurs, alone or behind another one
+AllModLists == {<<>>, <<"OFF">>, <<"NOIF">>, <<"NOMACRO">>, <<"NOREST">>, <<"OFF", "REST">>, <<"OFF", "IF">>, <<"OFF", "MACRO">>,
+                <<"NOIF", "NOMACRO">>, <<"ON">>}
+AllCtlLists == {<<>>, <<"OFF">>, <<"NOIF">>, <<"IF">>, <<"REST">>, <<"NOREST">>, <<"MACRO">>, <<"NOMACRO">>, <<"ON">>}
 TopStatements ==
   {D(t, n) : t \in {1, 2}, n \in {1, 3}} \cup {D(3, 9)} \cup {L("set", 5, 0, <<>>)}
   \cup {L("listing", m, 0, <<>>) : m \in 0..3}
